@@ -67,7 +67,7 @@ def strategy_case(draw, tier):
         st.lists(st.sampled_from([0, 0, 200, 1000, 2000]),
                  min_size=n_writers,
                  max_size=n_writers))
-    prior = draw(st.booleans())
+    prior = draw(st.sampled_from([False, "filler", "multi", "multi"]))
     return {"desc": desc, "writers": writers, "delays_us": delays,
             "prior": prior}
 
@@ -151,7 +151,17 @@ def run_case(case, ctx):
 
         def build(path, single_process, logged):
             ds = dsops.create_dataset(path, desc)
-            if case["prior"]:
+            if case["prior"] == "multi":
+                # an earlier multi-writer call on the same dataset
+                ds.write_multiprocessing(
+                    feed_writer=dsops.feed_writer,
+                    custom_arguments=[({"desc": desc, "writer": 90,
+                                        "runs": [["train", [900_001], None]]},),
+                                      ({"desc": desc, "writer": 91,
+                                        "runs": [["train", [900_002], None]]},)],
+                    consistency_check=False,
+                    single_process=True)
+            elif case["prior"]:
                 dsops.filler_session(ds, desc,
                                      [["train", [900_001, 900_002], None]])
             res = ds.write_multiprocessing(
